@@ -38,6 +38,10 @@ def run(case):
     ns['call'] = call
     for alias in ('patch', 'validate', 'deal', 'd', 'id', 'items', 'update'):      # the same method under other names (some collide with names the machinery uses)
         ns[alias] = call
+    # the same method carrying other (satisfied) contracts: an invariant violation inside it is still the invariant's error
+    ns['c_raises'] = deal.raises(ValueError)(call)
+    ns['c_has'] = deal.has()(call)
+    ns['c_pre'] = deal.pre(lambda self, sets, raises, ret: True)(deal.post(lambda r: True)(call))
     ns['smethod'] = staticmethod(lambda ret: ret)
     ns['cmethod'] = classmethod(lambda cls, ret: ret)
     ns['prop'] = property(lambda self: 42)
